@@ -149,7 +149,10 @@ func runC15(r *Report) {
 					return
 				}
 				df := deferredFunc(d)
-				if df == nil || df == unlock || anyInstr(df, func(i2 ssa.Instruction) bool { c2, okc := i2.(*ssa.Call); return okc && c2.Call.StaticCallee() == unlock }) == nil {
+				if df == nil || df == unlock || anyInstr(df, func(i2 ssa.Instruction) bool {
+					c2, okc := i2.(*ssa.Call)
+					return okc && c2.Call.StaticCallee() == unlock
+				}) == nil {
 					return
 				}
 				nU++
